@@ -1,12 +1,14 @@
 (* C01 matrix helper library.
 
    [MxOps] is the dimension-indexed matrix interface over which the first-order
-   solution algebra (model/Ford.v) is written ONCE.  Two instances exist:
+   solution algebra (model/Ford.v) is written ONCE.  Instances:
 
    * the MathComp instance on 'M[F]_(m,n)  (proofs/FordProofs.v) -- all theorems;
-   * the executable instance below on [list (list bigQ)] (dimensions are phantom,
-     row-major, exact rationals, Gauss-Jordan inverse) -- used by the generated
-     correspondence case files under vm_compute.
+   * executable instances on [list (list S)] (dimensions are phantom, row-major):
+       LQ : S = bigQ, exact rationals, Gauss-Jordan inverse  (solution algebra, stage (a));
+       LD : S = dyadic numbers m * 2^e with bigZ mantissa    (simulation recursion, stage (b):
+            only + and * occur, every double is dyadic, no gcd normalisation is needed)
+     used by the generated correspondence case files under vm_compute.
 
    No proofs in this file. *)
 From Coq Require Import List ZArith Bool.
@@ -47,8 +49,101 @@ Arguments mis0 {_ _ _} _.
 Arguments mrowmask {_ _ _} _ _.
 
 (* ------------------------------------------------------------------ *)
-(* Executable instance: list (list bigQ), exact rational arithmetic     *)
+(* list-of-rows matrices over an arbitrary scalar structure             *)
 
+Section ListMx.
+Variable S : Type.
+Variables (s0 s1 : S) (sadd smul ssub : S -> S -> S) (sopp sinv : S -> S) (sis0 : S -> bool).
+
+Definition LM := list (list S).
+
+Definition dot (a b : list S) : S :=
+  fold_left (fun acc p => sadd acc (smul (fst p) (snd p))) (combine a b) s0.
+
+Fixpoint transpose_aux (n : nat) (a : LM) : LM :=
+  match n with
+  | O => []
+  | Datatypes.S k => map (fun r => hd s0 r) a :: transpose_aux k (map (fun r => tl r) a)
+  end.
+
+(* the number of columns has to be given: an m x 0 matrix is a list of empty rows *)
+Definition ltr (m n : nat) (a : LM) : LM := transpose_aux n a.
+
+Definition lmul (m n p : nat) (a b : LM) : LM :=
+  let bt := ltr n p b in map (fun r => map (fun c => dot r c) bt) a.
+
+Definition ladd (a b : LM) : LM :=
+  map (fun p => map (fun q => sadd (fst q) (snd q)) (combine (fst p) (snd p))) (combine a b).
+Definition lopp (a : LM) : LM := map (map sopp) a.
+
+Definition idrow (n i : nat) : list S := map (fun j => if Nat.eqb i j then s1 else s0) (seq 0 n).
+Definition lident (n : nat) : LM := map (idrow n) (seq 0 n).
+Definition lzero (m n : nat) : LM := repeat (repeat s0 n) m.
+
+(* Gauss-Jordan on the augmented matrix [a | I]; exact arithmetic, so any non-zero pivot is fine.
+   On a singular matrix the result is unspecified. *)
+Definition scale_row (c : S) (r : list S) := map (smul c) r.
+Definition axpy_row (c : S) (x y : list S) := map (fun p => ssub (snd p) (smul c (fst p))) (combine x y).
+
+Fixpoint find_pivot (col : nat) (rows : LM) (k : nat) : option nat :=
+  match rows with
+  | [] => None
+  | r :: rs => if sis0 (nth col r s0) then find_pivot col rs (Datatypes.S k) else Some k
+  end.
+
+Definition swap_rows (i j : nat) (a : LM) : LM :=
+  let ri := nth i a [] in let rj := nth j a [] in
+  map (fun p => if Nat.eqb (fst p) i then rj else if Nat.eqb (fst p) j then ri else snd p)
+      (combine (seq 0 (length a)) a).
+
+Definition eliminate (col : nat) (a : LM) : LM :=
+  match find_pivot col (skipn col a) col with
+  | None => a
+  | Some p =>
+      let a1 := swap_rows col p a in
+      let pr := nth col a1 [] in
+      let prn := scale_row (sinv (nth col pr s0)) pr in
+      map (fun q => if Nat.eqb (fst q) col then prn
+                    else let c := nth col (snd q) s0 in
+                         if sis0 c then snd q else axpy_row c prn (snd q))
+          (combine (seq 0 (length a1)) a1)
+  end.
+
+Definition linv (n : nat) (a : LM) : LM :=
+  let aug := map (fun p => snd p ++ idrow n (fst p)) (combine (seq 0 n) a) in
+  let red := fold_left (fun acc col => eliminate col acc) (seq 0 n) aug in
+  map (skipn n) red.
+
+Definition ListOps : MxOps := {|
+  mx := fun _ _ => LM;
+  mmul := fun m n p a b => lmul m n p a b;
+  madd := fun _ _ a b => ladd a b;
+  mopp := fun _ _ a => lopp a;
+  mtr := fun m n a => ltr m n a;
+  minv := fun n a => linv n a;
+  mid := lident;
+  mzero := lzero;
+  usub := fun m1 _ _ a => firstn m1 a;
+  dsub := fun m1 _ _ a => skipn m1 a;
+  lsub := fun _ n1 _ a => map (firstn n1) a;
+  rsub := fun _ n1 _ a => map (skipn n1) a;
+  colmx := fun _ _ _ a b => a ++ b;
+  mis0 := fun _ _ a => forallb (forallb sis0) a;
+  mrowmask := fun _ _ f a => map (fun p => if f (fst p) then snd p else map (fun _ => s0) (snd p))
+                                 (combine (seq 0 (length a)) a);
+|}.
+
+End ListMx.
+
+Fixpoint all2 {T} (f : T -> T -> bool) (a b : list T) : bool :=
+  match a, b with
+  | [], [] => true
+  | x :: xs, y :: ys => f x y && all2 f xs ys
+  | _, _ => false
+  end.
+
+(* ------------------------------------------------------------------ *)
+(* exact rationals                                                      *)
 Module LQ.
 
 Definition q0 : bigQ := BigQ.zero.
@@ -61,7 +156,6 @@ Definition qinv := BigQ.inv_norm.
 Definition qis0 (x : bigQ) : bool := BigQ.eqb x q0.
 Definition qabs (x : bigQ) : bigQ := match BigQ.compare x q0 with Lt => qopp x | _ => x end.
 Definition qleb (x y : bigQ) : bool := match BigQ.compare x y with Gt => false | _ => true end.
-Definition qltb (x y : bigQ) : bool := match BigQ.compare x y with Lt => true | _ => false end.
 
 (* the dyadic rational m * 2^e : every IEEE double is one *)
 Definition dy (m e : Z) : bigQ :=
@@ -69,97 +163,44 @@ Definition dy (m e : Z) : bigQ :=
   else BigQ.red (BigQ.Qq (BigZ.of_Z m) (BigN.of_N (Z.to_N (2 ^ (- e))))).
 
 Definition M := list (list bigQ).
+Definition Ops : MxOps := ListOps bigQ q0 q1 qadd qmul qsub qopp qinv qis0.
 
-Definition dot (a b : list bigQ) : bigQ :=
-  fold_left (fun acc p => qadd acc (qmul (fst p) (snd p))) (combine a b) q0.
-
-Fixpoint transpose_aux (n : nat) (a : M) : M :=
-  match n with
-  | O => []
-  | S k => map (fun r => hd q0 r) a :: transpose_aux k (map (fun r => tl r) a)
-  end.
-
-(* the number of columns has to be given: an m x 0 and a 0 x n matrix are both [] or [[];...] *)
-Definition tr (m n : nat) (a : M) : M := transpose_aux n a.
-
-Definition mul (m n p : nat) (a b : M) : M :=
-  let bt := tr n p b in map (fun r => map (fun c => dot r c) bt) a.
-
-Definition add (a b : M) : M := map (fun p => map (fun q => qadd (fst q) (snd q)) (combine (fst p) (snd p))) (combine a b).
-Definition opp (a : M) : M := map (map qopp) a.
-
-Definition idrow (n i : nat) : list bigQ := map (fun j => if Nat.eqb i j then q1 else q0) (seq 0 n).
-Definition ident (n : nat) : M := map (idrow n) (seq 0 n).
-Definition zero (m n : nat) : M := repeat (repeat q0 n) m.
-
-(* Gauss-Jordan on the augmented matrix [a | I]; exact arithmetic, so any non-zero pivot is fine.
-   On a singular matrix the result is unspecified (the harness checks [is_inverse]). *)
-Definition scale_row (c : bigQ) (r : list bigQ) := map (qmul c) r.
-Definition axpy_row (c : bigQ) (x y : list bigQ) := map (fun p => qsub (snd p) (qmul c (fst p))) (combine x y).
-
-Fixpoint find_pivot (col : nat) (rows : M) (k : nat) : option nat :=
-  match rows with
-  | [] => None
-  | r :: rs => if qis0 (nth col r q0) then find_pivot col rs (S k) else Some k
-  end.
-
-Definition swap_rows (i j : nat) (a : M) : M :=
-  let ri := nth i a [] in let rj := nth j a [] in
-  map (fun p => if Nat.eqb (fst p) i then rj else if Nat.eqb (fst p) j then ri else snd p)
-      (combine (seq 0 (length a)) a).
-
-Definition eliminate (col : nat) (a : M) : M :=
-  match find_pivot col (skipn col a) col with
-  | None => a
-  | Some p =>
-      let a1 := swap_rows col p a in
-      let pr := nth col a1 [] in
-      let prn := scale_row (qinv (nth col pr q0)) pr in
-      map (fun q => if Nat.eqb (fst q) col then prn
-                    else let c := nth col (snd q) q0 in
-                         if qis0 c then snd q else axpy_row c prn (snd q))
-          (combine (seq 0 (length a1)) a1)
-  end.
-
-Definition inv (n : nat) (a : M) : M :=
-  let aug := map (fun p => snd p ++ idrow n (fst p)) (combine (seq 0 n) a) in
-  let red := fold_left (fun acc col => eliminate col acc) (seq 0 n) aug in
-  map (skipn n) red.
-
-Definition Ops : MxOps := {|
-  mx := fun _ _ => M;
-  mmul := fun m n p a b => mul m n p a b;
-  madd := fun _ _ a b => add a b;
-  mopp := fun _ _ a => opp a;
-  mtr := fun m n a => tr m n a;
-  minv := fun n a => inv n a;
-  mid := ident;
-  mzero := zero;
-  usub := fun m1 _ _ a => firstn m1 a;
-  dsub := fun m1 _ _ a => skipn m1 a;
-  lsub := fun _ n1 _ a => map (firstn n1) a;
-  rsub := fun _ n1 _ a => map (skipn n1) a;
-  colmx := fun _ _ _ a b => a ++ b;
-  mis0 := fun _ _ a => forallb (forallb qis0) a;
-  mrowmask := fun _ _ f a => map (fun p => if f (fst p) then snd p else map (fun _ => q0) (snd p))
-                                 (combine (seq 0 (length a)) a);
-|}.
-
-(* comparison helpers for the case files *)
 Definition close (tol : bigQ) (model impl : bigQ) : bool :=
   qleb (qabs (qsub model impl)) (qmul tol (qadd q1 (qabs impl))).
-
-Fixpoint all2 {T} (f : T -> T -> bool) (a b : list T) : bool :=
-  match a, b with
-  | [], [] => true
-  | x :: xs, y :: ys => f x y && all2 f xs ys
-  | _, _ => false
-  end.
-
 Definition mclose (tol : bigQ) (a b : M) : bool := all2 (all2 (close tol)) a b.
 
-(* largest |a - b| / (1 + |b|) over the cells (for diagnostics) *)
-Definition well_shaped (m n : nat) (a : M) : bool :=
-  Nat.eqb (length a) m && forallb (fun r => Nat.eqb (length r) n) a.
-
 End LQ.
+
+(* ------------------------------------------------------------------ *)
+(* dyadic numbers m * 2^e: closed under + - *, no normalisation needed  *)
+Module LD.
+
+Definition dyad := (bigZ * Z)%type.
+Definition d0 : dyad := (BigZ.zero, 0%Z).
+Definition d1 : dyad := (BigZ.one, 0%Z).
+Definition shl (m : bigZ) (k : Z) : bigZ := BigZ.mul m (BigZ.pow (BigZ.of_Z 2) (BigZ.of_Z k)).
+Definition dadd (a b : dyad) : dyad :=
+  let '(ma, ea) := a in let '(mb, eb) := b in
+  if BigZ.eqb ma BigZ.zero then b else if BigZ.eqb mb BigZ.zero then a else
+  if (ea <=? eb)%Z then (BigZ.add ma (shl mb (eb - ea)), ea) else (BigZ.add (shl ma (ea - eb)) mb, eb).
+Definition dopp (a : dyad) : dyad := (BigZ.opp (fst a), snd a).
+Definition dsub (a b : dyad) : dyad := dadd a (dopp b).
+Definition dmul (a b : dyad) : dyad :=
+  if BigZ.eqb (fst a) BigZ.zero then d0 else if BigZ.eqb (fst b) BigZ.zero then d0 else
+  (BigZ.mul (fst a) (fst b), (snd a + snd b)%Z).
+Definition dis0 (a : dyad) : bool := BigZ.eqb (fst a) BigZ.zero.
+Definition dabs (a : dyad) : dyad := (BigZ.abs (fst a), snd a).
+(* a <= b  <->  mantissa of (b - a) is non-negative *)
+Definition dleb (a b : dyad) : bool := match BigZ.compare (fst (dsub b a)) BigZ.zero with Lt => false | _ => true end.
+
+Definition dy (m e : Z) : dyad := (BigZ.of_Z m, e).
+
+Definition M := list (list dyad).
+(* there is no inverse on dyadics: [minv] is the identity function and is never used in stage (b) *)
+Definition Ops : MxOps := ListOps dyad d0 d1 dadd dmul dsub dopp (fun x => x) dis0.
+
+Definition close (tol : dyad) (model impl : dyad) : bool :=
+  dleb (dabs (dsub model impl)) (dmul tol (dadd d1 (dabs impl))).
+Definition mclose (tol : dyad) (a b : M) : bool := all2 (all2 (close tol)) a b.
+
+End LD.
